@@ -24,13 +24,14 @@ manifest).
   succeeds, the manifest references only complete objects (`manifest_refs_complete`).
 * `crash_consistent_flush_partial` — workloads without compaction: every update of every flush
   that returned `Ok` is literally among the updates recovery returns.
-* `crash_consistent_repaired` — workloads with compaction, repaired compactor (merge instead of
-  keep-latest, only `NotFound` marks a segment missing), no tombstone GC: every confirmed update
-  is absorbed by the recovered state.  For the code that exists this is false:
-  `compact_get_fault_counterexample` (a transient `get` error makes the compactor drop and
-  delete a live segment) — known finding; the keep-latest part is C13's.
-* `failed_flush_keeps_buffer` — proved for the repaired `flush` (buffer restored on error),
-  `failed_flush_drops_buffer_counterexample` for the code that exists — known finding.
+* `crash_consistent_current` — the full statement for the CURRENT tree (`Stream.current`: the
+  compactor merges instead of keeping the latest, only `NotFound` marks a segment missing),
+  workloads with compaction, no tombstone GC: every confirmed update is absorbed by the
+  recovered state.  For the pinned commit this was false: `compact_get_fault_counterexample`
+  (a transient `get` error made the compactor drop and delete a live segment) — fixed defect.
+* `failed_flush_keeps_buffer_current`, `no_update_vanishes_current` — the current `flush` puts
+  the taken deltas back on every error path; `failed_flush_drops_buffer_counterexample` for the
+  pinned commit — fixed defect.
 -/
 namespace RedisVerif
 namespace C12
@@ -131,10 +132,9 @@ theorem acked_in_content_step (fl : Flags) (F : Oracle) (s : Sys) (op : Op)
       | empty => simp only at hs; rw [hs.1]; exact h d hd
       | error => simp only at hs; rw [hs.1]; exact h d hd
 
-/-- **crash_consistent, partial (code that exists)**: workloads of push / flush without
+/-- **crash_consistent without compaction, every code variant**: workloads of push / flush without
     compaction, every oracle / crash point: every update of every flush that returned `Ok` is
-    among the updates recovery returns.  What is missing for the full statement: compaction —
-    `compact_get_fault_counterexample` here, keep-latest in C13. -/
+    among the updates recovery returns (no coherence hypothesis needed). -/
 theorem crash_consistent_flush_partial (fl : Flags) (F : Oracle) (rid : Nat) (ops : List Op)
     (hno : NoCompaction ops) :
     OkAnd (recover (runWith fl F (Sys.init [] rid) ops).w.store rid) (fun r =>
@@ -157,7 +157,7 @@ def C12_failed_flush_keeps_buffer (restore : Bool) : Prop :=
   ∀ (F : Oracle) (sz : Nat) (w : World) (p : Pers),
     (flushWith restore F sz w p).2.2 = .error → (flushWith restore F sz w p).2.1.buffer = p.buffer
 
-/-- proved for the repaired `flush` (the taken deltas are put back on every error path) -/
+/-- proved for `restore = true` (the taken deltas are put back on every error path) -/
 theorem failed_flush_keeps_buffer : C12_failed_flush_keeps_buffer true := by
   intro F sz w p h
   unfold flushWith at h ⊢
@@ -188,7 +188,7 @@ theorem failed_flush_keeps_buffer : C12_failed_flush_keeps_buffer true := by
 
 def c12Delta (k v t : Nat) : Delta := (k, RV.withValue [v] ⟨t, 1⟩)
 
-/-- **Known finding C12:failed-flush-drops-buffer** (DESIGN §6.1): two accepted updates, the
+/-- **Fixed defect C12:failed-flush-drops-buffer** (pinned commit; DESIGN §6.1): two accepted updates, the
     segment `put` of the flush fails; `flush` returns `Err` and the buffer is empty. -/
 theorem failed_flush_drops_buffer_counterexample : ¬ C12_failed_flush_keeps_buffer false := by
   intro h
@@ -279,7 +279,7 @@ def getFaultOps : List Op :=
 
 def getFaultOracle : Oracle := fun n => if n = 9 then .fail else .ok
 
-/-- **Known finding C12:compact:get-error-treated-as-missing.**  `Compactor::compact` maps EVERY
+/-- **Fixed defect C12:compact:get-error-treated-as-missing** (pinned commit).  `Compactor::compact` mapped EVERY
     error of `store.get(segment)` to "missing": the segment is dropped from the new manifest and
     then deleted.  One transient read error loses a confirmed update. -/
 theorem compact_get_fault_counterexample :
@@ -424,6 +424,34 @@ theorem crash_consistent_repaired (restore : Bool) :
   unfold Absorbed
   rw [hfold, hu]
   exact hm
+
+
+/-! ## the current tree -/
+
+theorem current_is_repaired : current = { restoreBuffer := true, compact := repairedCompact } := rfl
+
+/-- **crash_consistent, full statement, for the CURRENT tree** (`Stream.current`): every workload
+    of push / flush / compact with coherent pushed updates and no tombstone GC, every fault
+    oracle hence every crash point: recovery succeeds, the manifest references only complete
+    objects, every update of every flush that returned `Ok` is absorbed by the recovered state. -/
+theorem crash_consistent_current : C12_crash_consistent current := by
+  rw [current_is_repaired]
+  exact crash_consistent_repaired true
+
+/-- **failed_flush_keeps_buffer for the CURRENT tree** (`Stream.flush`) -/
+theorem failed_flush_keeps_buffer_current (F : Oracle) (sz : Nat) (w : World) (p : Pers)
+    (h : (flush F sz w p).2.2 = .error) : (flush F sz w p).2.1.buffer = p.buffer :=
+  failed_flush_keeps_buffer F sz w p h
+
+/-- in the current tree no accepted update vanishes: it is confirmed or still pending -/
+theorem no_update_vanishes_current (F : Oracle) (rid : Nat) (ops : List Op) :
+    ∀ d, d ∈ pushes ops → d ∈ (run F (Sys.init [] rid) ops).acked ∨ d ∈ (run F (Sys.init [] rid) ops).p.buffer :=
+  no_update_vanishes current rfl F rid ops
+
+/-- the get-fault witness of the pinned commit loses nothing in the current tree -/
+example : OkAnd (recover (run getFaultOracle (Sys.init [] 1) getFaultOps).w.store 1)
+    (fun r => Absorbed (c12Delta 107 8 46) (foldState r.updates) ∧ Absorbed (c12Delta 233 9 48) (foldState r.updates)) := by
+  decide
 
 /-! ## non-vacuity -/
 
